@@ -757,7 +757,7 @@ SUBCHECKS = [
     SubCheck("dt-exhaustive", make_dt_check("exhaustive"), strategy=_dt_strategy,
              budget={"quick": 300, "thorough": 8000}, timeout={"quick": 15, "thorough": 40}, render=render_dt),
     SubCheck("dt-local", make_dt_check("local"), strategy=_dt_local_strategy,
-             budget={"quick": 350, "thorough": 5000}, timeout={"quick": 15, "thorough": 40}, render=render_dt),
+             budget={"quick": 250, "thorough": 5000}, timeout={"quick": 15, "thorough": 40}, render=render_dt),
     SubCheck("map", check_map, strategy=_map_strategy,
              budget={"quick": 200, "thorough": 6000}, timeout={"quick": 15, "thorough": 40}, render=render_map),
 ]
